@@ -45,10 +45,10 @@ def kkt_residual(x, y, z, lam, xsi, eta, mu, zet, s, low, upp, alfa, beta, P, Q,
 def record_run(rng, tid):
     import pymoto as pym
     import pymoto.common.mma as mma_mod
-    prob = optprob.make_problem(rng, with_quadratic=bool(rng.random() < 0.4))
+    prob = optprob.make_problem(rng, with_quadratic=bool(rng.random() < 0.4), start=optprob.START_CYCLE[tid % len(optprob.START_CYCLE)])
     lens, n = prob["lens"], prob["n"]
     xmin_arg, xmin_spec, xmin_v = optprob.bound_spec(rng, lens, 0.02, 0.2)
-    xmax_arg, xmax_spec, xmax_v = optprob.bound_spec(rng, lens, 0.9, 2.0)
+    xmax_arg, xmax_spec, xmax_v = optprob.bound_spec(rng, lens, 1.1 if prob["start"] == "int" else 0.9, 2.0)
     mv_kind = str(rng.choice(["scalar", "persignal"]))
     if mv_kind == "scalar":
         mv = float(rng.choice([0.05, 0.1, 0.2, 0.5]))
